@@ -49,7 +49,15 @@ def main():
         rc0, out0 = sh([PY, "mutants/x/demo.py"], cwd=scratch, env=env, timeout=1800)
         meta["demo_unchanged"] = {"exit": rc0, "tail": out0[-300:]}
         rc, out = sh(["git", "apply", os.path.abspath(patch)], cwd=scratch)
-        assert rc == 0, "patch does not apply: " + out
+        if rc != 0:
+            # the code the change edits has since been rewritten by a fix: keep the recorded result
+            print("patch no longer applies to the current tree; recorded result kept:", out[:300])
+            mp = os.path.join(VERIF, "seeded", sid, "meta.json")
+            if os.path.exists(mp):
+                m = json.load(open(mp))
+                m["no_longer_applies"] = "patch.diff does not apply to /repo at %s (the edited code was rewritten by a later fix)" % sh(["git", "-C", "/repo", "rev-parse", "--short", "HEAD"])[1].strip()
+                json.dump(m, open(mp, "w"), indent=1, ensure_ascii=False)
+            return
         rc1, out1 = sh([PY, "mutants/x/demo.py"], cwd=scratch, env=env, timeout=1800)
         meta["demo_with_change"] = {"exit": rc1, "tail": out1[-300:]}
         meta["ran"].append("demo.py before/after")
@@ -87,7 +95,7 @@ def main():
     out_dir = os.path.join(VERIF, "seeded", sid)
     os.makedirs(out_dir, exist_ok=True)
     for fn in ("patch.diff", "demo.py", "note.md"):
-        if os.path.exists(os.path.join(mdir, fn)):
+        if os.path.exists(os.path.join(mdir, fn)) and os.path.abspath(mdir) != os.path.abspath(out_dir):
             shutil.copy(os.path.join(mdir, fn), os.path.join(out_dir, fn))
     note = ""
     if os.path.exists(os.path.join(mdir, "note.md")):
